@@ -132,7 +132,7 @@ impl KeyTagImpl for U16 {
     }
 
     fn skip<B: Buf>(buf: &mut B) -> Result<(), DeserializeError> {
-        buf.try_skip_varint_le::<{ mem::size_of::<Self>() }>()
+        buf.try_skip_varint_le::<{ mem::size_of::<u16>() }>()
     }
 
     fn convert(src: &mut &[u8], dst: &mut BytesMut) -> Result<(), ValueConversionError> {
@@ -162,7 +162,7 @@ impl KeyTagImpl for I16 {
     }
 
     fn skip<B: Buf>(buf: &mut B) -> Result<(), DeserializeError> {
-        buf.try_skip_varint_le::<{ mem::size_of::<Self>() }>()
+        buf.try_skip_varint_le::<{ mem::size_of::<i16>() }>()
     }
 
     fn convert(src: &mut &[u8], dst: &mut BytesMut) -> Result<(), ValueConversionError> {
@@ -192,7 +192,7 @@ impl KeyTagImpl for U32 {
     }
 
     fn skip<B: Buf>(buf: &mut B) -> Result<(), DeserializeError> {
-        buf.try_skip_varint_le::<{ mem::size_of::<Self>() }>()
+        buf.try_skip_varint_le::<{ mem::size_of::<u32>() }>()
     }
 
     fn convert(src: &mut &[u8], dst: &mut BytesMut) -> Result<(), ValueConversionError> {
@@ -222,7 +222,7 @@ impl KeyTagImpl for I32 {
     }
 
     fn skip<B: Buf>(buf: &mut B) -> Result<(), DeserializeError> {
-        buf.try_skip_varint_le::<{ mem::size_of::<Self>() }>()
+        buf.try_skip_varint_le::<{ mem::size_of::<i32>() }>()
     }
 
     fn convert(src: &mut &[u8], dst: &mut BytesMut) -> Result<(), ValueConversionError> {
@@ -252,7 +252,7 @@ impl KeyTagImpl for U64 {
     }
 
     fn skip<B: Buf>(buf: &mut B) -> Result<(), DeserializeError> {
-        buf.try_skip_varint_le::<{ mem::size_of::<Self>() }>()
+        buf.try_skip_varint_le::<{ mem::size_of::<u64>() }>()
     }
 
     fn convert(src: &mut &[u8], dst: &mut BytesMut) -> Result<(), ValueConversionError> {
@@ -282,7 +282,7 @@ impl KeyTagImpl for I64 {
     }
 
     fn skip<B: Buf>(buf: &mut B) -> Result<(), DeserializeError> {
-        buf.try_skip_varint_le::<{ mem::size_of::<Self>() }>()
+        buf.try_skip_varint_le::<{ mem::size_of::<i64>() }>()
     }
 
     fn convert(src: &mut &[u8], dst: &mut BytesMut) -> Result<(), ValueConversionError> {
